@@ -24,9 +24,23 @@ suite (level_note of C10).  An empty version file is reported as `null` (`cfgVer
 unchanged code dies in `int('')` (ValueError), i.e. the code fails closed until somebody rewrites the file (`forgeCfgVer` /
 `forgeJsVer`).
 
+Failed write (`{"k": "failWrite", "op": <api op>, "after": k}`): the (k+1)-th file write of the call raises OSError(EDQUOT) - a
+NON-FATAL failure: the exception passes through `_do_action_under_lock_internal` (lock released, deadlock marker re-created) to
+the caller, and the SAME handle is used afterwards (like after an update that raises KeyError for an unknown job name or trips
+an assertion: `bad_update` in clustergen).  Then other handles change the state and the handle that failed writes again.
+
+Stalled call (`{"k": "stallBegin", "h": h, "op": <api op>, "after": k}` … `{"k": "stallEnd", "h": h}`): the real call runs in a
+worker thread (harness/coop.py Scheduler) up to its (k+1)-th file write and PARKS there: a live process inside its lock section
+(a hung write on the shared filesystem), its lock marker present - created, like every marker of `MarkerLock`, with an mtime one
+hour in the past.  Meanwhile the other handles act: every call that takes the lock must time out and change nothing (oracles
+`lock.broken_while_held`, `lock.two_in_section`, `lock.wrote_while_held`, `lock.not_excluded`); nothing is invoked through the
+slot of the parked process (`busy`); `breakMarker` is refused (the marker of a live holder is not stale).  `stallEnd` lets the
+call finish.
+
 After EVERY operation the result/exception enum and the parsed content of cluster_config.json, config_version.txt,
 job_status.json, job_status_version.txt (+ `.bk` files, + the lock marker) are compared with the Lean driver.
 """
+import errno
 import hashlib
 import json
 import os
@@ -37,6 +51,7 @@ from common import Suite, Violation, err_enum, quiet, scratch_dir
 import jadeenv
 from jadeenv import jname, jid
 import clustergen
+import coop
 
 FILES = ["cluster_config.json", "config_version.txt", "job_status.json", "job_status_version.txt"]
 LOCK = "cluster_config.json.lock"
@@ -44,27 +59,68 @@ CFG_WRITERS = {"promote", "demote", "update", "markComplete", "markCanceled", "p
 JS_WRITERS = {"update", "completeHpcId", "prepareResubmit"}
 HOLDER_ONLY = {"demote", "update", "markComplete", "markCanceled", "completeHpcId", "prepareResubmit"}
 ORDER = {"not_submitted": 0, "submitted": 1, "done": 2}
+WRAPS = ("crash", "failWrite", "stallBegin")       # ops that wrap an API call (`"op"`)
+# the API calls that run under the cluster lock (`Op.takesLock`): only these can be parked inside the lock section
+LOCKED = {"load", "promote", "demote", "update", "markComplete", "markCanceled", "completeHpcId", "deserializeJobs", "allComplete", "read"}
 
 
 def hostname(k):
     return f"host{k}"
 
 
-class MarkerLock:
-    """non-blocking stand-in for filelock.SoftFileLock: the marker file IS the lock"""
+MARKER_AGE = 3600.0     # seconds: every marker is created with an mtime one hour in the past
 
-    def __init__(self, lock_file, timeout=-1):
-        self._f = lock_file
+
+class MarkerLock:
+    """non-blocking stand-in for filelock.SoftFileLock: the marker file IS the lock.
+
+    The marker is created with an OLD mtime (`MARKER_AGE` ago): the worst case for any "this lock file has been there for too
+    long, its owner must be dead" heuristic - the unchanged code never looks at the age of the file.  `break_lock()` (filelock
+    3.32.7 has it) removes the marker whoever holds it.  `events` notes what happened to markers of LIVE holders (a call
+    parked inside its lock section by `stallBegin`; the suite keeps their number in `parked`): ("break_lock", file) - the marker
+    of a live holder was removed by somebody else - and ("entered_while_held", file) - a second process got the lock."""
+    parked = 0       # calls that are parked INSIDE the cluster lock section right now (alive, holding the lock)
+    events = []
+
+    @classmethod
+    def reset(cls):
+        cls.parked = 0
+        cls.events = []
+
+    def __init__(self, lock_file, timeout=-1, **kw):
+        self._f = os.fspath(lock_file)
+        self.lock_file = self._f
+        self._held = False
+
+    @property
+    def is_locked(self):
+        return self._held
 
     def acquire(self, timeout=None, **kw):
         import filelock
+        import time
         try:
             fd = os.open(self._f, os.O_WRONLY | os.O_CREAT | os.O_EXCL)
         except FileExistsError:
             raise filelock.Timeout(self._f)
         os.close(fd)
+        old = time.time() - MARKER_AGE
+        os.utime(self._f, (old, old))
+        if MarkerLock.parked > 0:
+            MarkerLock.events.append(("entered_while_held", os.path.basename(self._f)))
+        self._held = True
 
     def release(self, force=False):
+        self._held = False
+        try:
+            os.unlink(self._f)
+        except FileNotFoundError:
+            pass
+
+    def break_lock(self):
+        """remove the marker, whoever created it (filelock >= 3.13 `SoftFileLock.break_lock`)"""
+        if MarkerLock.parked > 0:
+            MarkerLock.events.append(("break_lock", os.path.basename(self._f)))
         try:
             os.unlink(self._f)
         except FileNotFoundError:
@@ -206,6 +262,8 @@ class ClusterSuite(Suite):
         # kill points: the three file-writing primitives of Cluster; any other write-open of one of the four files
         # from inside jade.jobs.cluster is recorded (`_unhooked`) and makes the case a harness failure
         self._kill = None
+        self._sched = None
+        self._parked = {}
         self._in_prim = 0
         self._unhooked = []
         prims = [n for n in PRIMITIVES if n in jc.Cluster.__dict__]
@@ -244,9 +302,29 @@ class ClusterSuite(Suite):
 
     def _gate(self, name, args):
         """called right before every file write of the code under test (`name`: the primitive, `args`: its arguments)"""
+        sched = self._sched
+        w = sched.current() if sched is not None else None
+        if w is not None:
+            # a call running in a worker thread (`stallBegin`): it parks right before its (k+1)-th file write, alive and
+            # inside its lock section, until `stallEnd` lets it go on
+            left = w.ctx.get("left", -1)
+            if left == 0:
+                w.ctx["left"] = -1
+                MarkerLock.parked += 1
+                try:
+                    sched.yield_point("write", name, force=True)
+                finally:
+                    MarkerLock.parked -= 1
+            elif left > 0:
+                w.ctx["left"] = left - 1
+            return
         if self._kill is not None:
             if self._kill["left"] == 0:
                 self._kill["fired"] = True
+                if self._kill.get("mode") == "oserror":
+                    # a NON-FATAL write failure: this one write raises, the process (and its handle) lives on
+                    self._kill["left"] = -1
+                    raise OSError(errno.EDQUOT, "Disk quota exceeded")
                 if self._kill.get("torn") and name in VERSION_FILE_OF:
                     # killed INSIDE the write of a version file: `open(f, "w")` has truncated it, `write()` never ran
                     path = getattr(args[0], VERSION_FILE_OF[name])
@@ -269,10 +347,18 @@ class ClusterSuite(Suite):
     # ---------------------------------------------------------------- implementation
     def impl(self, case):
         with quiet(), scratch_dir() as d:
+            MarkerLock.reset()
+            self._parked = {}      # slot -> (worker name, the API op parked inside its lock section)
+            self._sched = None     # coop.Scheduler, created by the first `stallBegin` of the case
             try:
                 return self._impl(case, d)
             finally:
                 socket.gethostname = self._saved[1]
+                if self._sched is not None:
+                    self._sched.close()     # unwinds calls that are still parked (a case without the matching `stallEnd`)
+                    self._sched = None
+                self._parked = {}
+                MarkerLock.reset()
 
     def _make_cluster(self, case, d):
         from jade.jobs.cluster import Cluster
@@ -297,15 +383,29 @@ class ClusterSuite(Suite):
         prev_status = self._status(out)
         sync = {0: {"cfg": raw_files(out)["cluster_config.json"], "js": raw_files(out)["job_status.json"]}}
         self._unhooked = []
+        faulted = False            # a file write of some call failed (OSError): an environment fault, like a forged file
+        ahead = {}                 # handle -> {"cfg": b, "js": b}: a failed write left its in-memory version AHEAD of the version file
         for op in case["ops"]:
-            crash = op["k"] == "crash"
-            eff = op["op"] if crash else op    # the API call (a crash op wraps the call during which the process dies)
+            kind = op["k"]
+            crash = kind == "crash"
+            # the API call: a crash / failWrite / stallBegin op wraps the call; `stallEnd` resumes the call parked by `stallBegin`
+            if kind in WRAPS:
+                eff = op["op"]
+            elif kind == "stallEnd":
+                eff = self._parked[op["h"]][1] if op["h"] in self._parked else {"k": "noStall", "h": op["h"]}
+            else:
+                eff = op
+            if kind != "stallEnd" and eff.get("h") is not None and eff["h"] in self._parked:
+                eff = {"k": "busy", "h": eff["h"]}      # the process behind this slot is inside a call: nothing is invoked
             k = eff["k"]
             h = eff.get("h")
             x = handles.get(h) if h is not None else None
             before_raw = raw_files(out)
             before = parse_disk(out)
-            o = {"k": k, "h": h, "crash": crash, "holders_before": list(holders), "protocol_before": protocol, "forged_before": forged,
+            MarkerLock.events = []
+            o = {"k": k, "h": h, "crash": crash, "wrap": kind if kind in WRAPS or kind == "stallEnd" else None, "eff": eff,
+                 "parked_before": sorted(self._parked), "resumed": kind == "stallEnd" and k != "noStall", "faulted_before": faulted,
+                 "holders_before": list(holders), "protocol_before": protocol, "forged_before": forged,
                  "marker_before": before["marker"], "submitter_before": before["cfg"]["submitter"] if before["cfg"] else "missing",
                  # a version file is EMPTY (its writer died between truncate and write)
                  "cfg_torn": before["cfgVer"] is None, "js_torn": before["jsVer"] is None}
@@ -324,6 +424,8 @@ class ClusterSuite(Suite):
                 o["mem_submitter"] = x.config.submitter
                 o["mem_complete"] = x.config.is_complete
                 o["handle_host"] = x._hostname
+                o["ahead_cfg"] = bool(ahead.get(h, {}).get("cfg"))
+                o["ahead_js"] = bool(ahead.get(h, {}).get("js"))
             # ---- Protocol bookkeeping (before the call)
             if k in HOLDER_ONLY and h not in holders:
                 protocol = False
@@ -341,9 +443,29 @@ class ClusterSuite(Suite):
                 if [j.state.value for j in x.job_status.jobs] != [j["state"] for j in before["js"]["jobs"]]:
                     wellformed = False
             self._tornfile = None
-            res, summary = self._do(op, x, handles, out, case)
+            self._write_failed = False
+            res, summary = self._do(op, x, handles, out, case) if k != "busy" else ("busy", None)
             if self._tornfile:
                 o["tornfile"] = self._tornfile
+            o["lock_events"] = [list(e) for e in MarkerLock.events]
+            o["stalled"] = res == "stalled"
+            o["parked_after"] = sorted(self._parked)
+            if self._write_failed:
+                # one file write of the call raised OSError; the caller caught it and goes on with the same handle.  The
+                # in-memory copy may now be AHEAD of the files (version bumped, nothing written): the role protocol of the
+                # Lean theorems (every call completes) does not describe what follows
+                o["write_failed"] = True
+                faulted = True
+                protocol = False
+                y = handles.get(h) if h is not None and k != "load" else None
+                if y is not None:
+                    # `_serialize` / `_serialize_jobs` bump the in-memory version BEFORE they write the version file: when that
+                    # write fails the handle holds a version number that is on no file
+                    cv, jv = read_version(out / "config_version.txt"), read_version(out / "job_status_version.txt")
+                    ahead[h] = {"cfg": cv is not None and y.config.version > cv,
+                                "js": jv is not None and y.job_status is not None and y.job_status.version > jv}
+            if k == "load" and isinstance(res, dict) and "bool" in res:
+                ahead.pop(h, None)
             after = parse_disk(out)
             after_raw = raw_files(out)
             o["changed"] = [f for f in FILES if before_raw[f] != after_raw[f]]
@@ -433,6 +555,42 @@ class ClusterSuite(Suite):
                 return "killed", None
             finally:
                 self._kill = None
+        if k == "failWrite":
+            # the (after+1)-th file write of the call raises OSError(EDQUOT) instead of writing; everything else - the
+            # `except Exception` of `_do_action_under_lock_internal`, the caller, the handle - goes on
+            self._kill = {"left": op["after"], "fired": False, "mode": "oserror"}
+            try:
+                r = self._do(op["op"], x, handles, out, case)
+                self._write_failed = self._kill["fired"]
+                return r
+            finally:
+                self._kill = None
+        if k == "stallBegin":
+            inner = op["op"]
+            if inner["k"] not in LOCKED or inner.get("h") is None:
+                return self._do(inner, x, handles, out, case)       # only a call of a handle under the lock is parked
+            if self._sched is None:
+                self._sched = coop.Scheduler(step_timeout=15.0)
+            name = f"call{len(self._sched.workers)}"
+            w = self._sched.spawn(name)
+            w.ctx["left"] = op["after"]
+            stop = self._sched.advance(name, lambda: self._do(inner, x, handles, out, case))
+            if stop.what == "yield":
+                self._parked[inner.get("h")] = (name, inner)
+                return "stalled", None
+            if stop.what == "raised":
+                raise stop.exc
+            return stop.result
+        if k == "stallEnd":
+            if op["h"] not in self._parked:
+                return "noStall", None
+            name, _ = self._parked.pop(op["h"])
+            stop = self._sched.advance(name)
+            if stop.what == "raised":
+                raise stop.exc
+            if stop.what != "done":
+                raise RuntimeError(f"resumed call parked again: {stop}")
+            return stop.result
         try:
             if k == "load":
                 socket.gethostname = lambda: hostname(op["host"])
@@ -448,7 +606,8 @@ class ClusterSuite(Suite):
                 except Exception as e:
                     return res_enum(e), res_enum(e)
             if k == "breakMarker":
-                if case["breakStale"] and (out / LOCK).exists():
+                # the marker of a LIVE holder (a call parked inside its lock section) is not stale: the library leaves it
+                if case["breakStale"] and (out / LOCK).exists() and not self._parked:
                     (out / LOCK).unlink()
                     return "ok", None
                 return "disabled", None
@@ -512,16 +671,49 @@ class ClusterSuite(Suite):
         steps = result.get("model", {}).get("steps", [])
         obs = (result.get("obs") or {}).get("steps", [])
         tainted = False
+        reused = False
         last_status = (result.get("obs") or {}).get("init_status")
         for i, (op, st, o) in enumerate(zip(case["ops"], steps, obs)):
             prev_status = last_status
             if o.get("status") is not None:
                 last_status = o["status"]
             crash = op["k"] == "crash"
-            op = op["op"] if crash else op       # the API call (for a crash op: the call during which the process is killed)
+            # the API call (crash: the call during which the process is killed; failWrite: the call one of whose writes raises;
+            # stallBegin / stallEnd: the call that parks inside its lock section / goes on from there)
+            op = o.get("eff") or (op["op"] if crash else op)
             k, res = op["k"], st["res"]
-            where = f"op #{i} {k} h={op.get('h')}" + (" (process killed before one of its file writes)" if o.get("killed") else "")
+            where = f"op #{i} {k} h={op.get('h')}" + (" (process killed before one of its file writes)" if o.get("killed") else "") \
+                + (" (one of its file writes raised OSError)" if o.get("write_failed") else "") \
+                + (" (call parked inside its lock section)" if o.get("stalled") else "") + (" (parked call resumed)" if o.get("resumed") else "")
             success = res in ("ok", {"bool": True})
+            # ---- known defect (findings/f9f): a handle one of whose version-file writes FAILED keeps the bumped version number in
+            #      memory; once another process has written that very number, the handle's out-of-date copy passes the version
+            #      compare and overwrites the newer contents.  Everything that follows is a consequence of this state
+            if reused:
+                continue
+            if (o.get("ahead_cfg") and o.get("cfg_behind") and "cluster_config.json" in o["changed"]) or \
+                    (o.get("ahead_js") and o.get("js_behind") and "job_status.json" in o["changed"]):
+                reused = True
+                v.append(Violation("C10", "failed_write.version_reused", f"{where}: an earlier write of this handle's version file failed "
+                                   f"(OSError) after the version had been bumped in memory; another process has since written that version "
+                                   f"number, and the handle's out-of-date copy was accepted and overwrote {o['changed']}"))
+                continue
+            # ---- C10 (e): the cluster lock serialises the lock sections of LIVE processes, however long one of them stays
+            #      inside (a call parked by stallBegin is alive and holds the lock; its marker file is an hour old)
+            if o.get("parked_before") and not o.get("resumed"):
+                ev = [e[0] for e in o.get("lock_events", [])]
+                if "break_lock" in ev or (not st["disk"]["marker"] and o.get("parked_after")):
+                    v.append(Violation("C10", "lock.broken_while_held", f"{where}: the lock marker of a live process that is still inside its "
+                                       f"lock section (handle(s) {o['parked_before']}, stalled) was removed by somebody else"))
+                if "entered_while_held" in ev:
+                    v.append(Violation("C10", "lock.two_in_section", f"{where}: acquired the cluster lock while the call of handle(s) "
+                                       f"{o['parked_before']} was inside its lock section"))
+                if o["changed"] and k in LOCKED:
+                    v.append(Violation("C10", "lock.wrote_while_held", f"{where}: changed {o['changed']} while the call of handle(s) "
+                                       f"{o['parked_before']} was inside its lock section"))
+                if k in LOCKED and res not in ({"error": "lockTimeout"}, "noHandle"):
+                    v.append(Violation("C10", "lock.not_excluded", f"{where}: returned {res} instead of timing out at the lock held by the "
+                                       f"stalled call of handle(s) {o['parked_before']}"))
             # ---- C10 (c'): a handle whose copy is OLDER THAN THE CONTENTS on disk never overwrites them - whatever the version
             #      files say (they are out of step with the contents after a writer was killed between its file writes, or EMPTY
             #      after a writer was killed inside the write of a version file: the unchanged code then rejects EVERY write of
@@ -541,19 +733,21 @@ class ClusterSuite(Suite):
                 if o["submitter_after"] != "missing" and (o["submitter_after"] is not None) != bool(o["holders_after"]):
                     v.append(Violation("C10", "mutex.submitter_field", f"{where}: submitter field {o['submitter_after']!r} but role holders {o['holders_after']}"))
             # ---- C10 (b): promotion while the role is held is refused and writes nothing
+            #      (after a FAILED WRITE the submitter field on disk may lag behind what the process that failed holds - its demotion
+            #      wrote the version file and not the data file: that handle's own calls are outside (b) and (b'))
             if k in ("load", "promote") and (k == "promote" or op["promote"]) and not o["marker_before"] \
-                    and o["submitter_before"] not in (None, "missing") and (k == "load" or not o["forged_before"]):
+                    and o["submitter_before"] not in (None, "missing") and (k == "load" or not (o["forged_before"] or o.get("faulted_before"))):
                 if res == {"bool": True}:
                     v.append(Violation("C10", "promote.while_held", f"{where}: promoted although host{o['submitter_before']} holds the role"))
                 if o["changed"]:
                     v.append(Violation("C10", "promote.refused_but_wrote", f"{where}: refused promotion changed {o['changed']}"))
             # ---- C10 (b'): the code's own guard — only a handle on the submitter's host can clear the role
-            if k == "demote" and res == "ok" and not o["forged_before"]:
+            if k == "demote" and res == "ok" and not o["forged_before"] and not o.get("faulted_before"):
                 if o["submitter_before"] in (None, "missing") or hostname(o["submitter_before"]) != o.get("handle_host"):
                     v.append(Violation("C10", "demote.foreign_host", f"{where}: handle on {o.get('handle_host')} cleared the role "
                                        f"of submitter {o['submitter_before']!r}"))
             # ---- C10 (c): a write by a stale handle is rejected with a version mismatch and leaves the files untouched
-            if "cfg_stale" in o and not (o["marker_before"] and k != "prepareResubmit"):
+            if "cfg_stale" in o and not (o["marker_before"] and k != "prepareResubmit") and not o.get("resumed"):
                 stale_cfg = o["cfg_stale"] and k in CFG_WRITERS
                 stale_js = o["js_stale"] and k in JS_WRITERS
                 if stale_cfg or (stale_js and k != "prepareResubmit"):
@@ -572,7 +766,8 @@ class ClusterSuite(Suite):
                     if must_mismatch and not torn_read and res != {"error": "versionMismatch"}:
                         v.append(Violation("C10", "stale.no_mismatch", f"{where}: stale handle's write returned {res}, not a version mismatch"))
             # ---- C10 (d): under Protocol a holder is never stale when it writes
-            if o["protocol_before"] and k in HOLDER_ONLY and op.get("h") in o["holders_before"] and not o["marker_before"]:
+            if o["protocol_before"] and k in HOLDER_ONLY and op.get("h") in o["holders_before"] and not o["marker_before"] \
+                    and not o.get("faulted_before"):
                 if res == {"error": "versionMismatch"}:
                     v.append(Violation("C10", "protocol.holder_stale", f"{where}: the role holder's write was rejected as stale"))
             # ---- C09: the status `jade show-status` reads
@@ -599,10 +794,17 @@ class ClusterSuite(Suite):
         # smaller number, and a data file never changes under an empty (or not larger) version file
         init = result.get("model", {}).get("init") or {}
         last = {"cfgVer": init.get("cfgVer"), "jsVer": init.get("jsVer")}
+        bumped_by_parked = {}      # slot of a parked call -> the version files it had already bumped when it parked
         for i, (op, st, o) in enumerate(zip(case["ops"], steps, obs)):
             cur = st["disk"]
-            op = op["op"] if op["k"] == "crash" else op
+            op = o.get("eff") or (op["op"] if op["k"] == "crash" else op)
             larger = {f: cur[f] is not None and (last[f] is None or cur[f] > last[f]) for f in last}
+            if o.get("stalled"):
+                bumped_by_parked[op.get("h")] = dict(larger)
+            if o.get("resumed"):
+                # the call wrote the version file before it parked and writes the data file now
+                for f, b in bumped_by_parked.pop(op.get("h"), {}).items():
+                    larger[f] = larger[f] or b
             if op["k"] not in ("forgeCfgVer", "forgeJsVer"):
                 if any(cur[f] is not None and last[f] is not None and cur[f] < last[f] for f in last):
                     v.append(Violation("C10", "version.decreased", f"op #{i} {op['k']}: a version file decreased"))
@@ -681,8 +883,20 @@ class ClusterSuite(Suite):
         steps = result.get("model", {}).get("steps", [])
         obs = (result.get("obs") or {}).get("steps", [])
         crashed = False
+        failed = set()       # handles one of whose calls raised (and that are still in use)
         for op, st, o in zip(case["ops"], steps, obs):
             crash = op["k"] == "crash"
+            if op["k"] == "failWrite":
+                t.add(f"failWrite.{op['op']['k']}.after{op['after']}." + ("raised[" + ",".join(sorted(o["changed"])) + "]" if o.get("write_failed") else "notReached"))
+                op = op["op"]
+            elif op["k"] == "stallBegin":
+                t.add(f"stall.{op['op']['k']}.after{op['after']}." + ("parked[" + ",".join(sorted(o["changed"])) + "]" if o.get("stalled") else "notReached"))
+                op = op["op"]
+            elif op["k"] == "stallEnd":
+                t.add("stallEnd." + ("resumed[" + ",".join(sorted(o["changed"])) + "]" if o.get("resumed") else "noStall"))
+                op = o.get("eff") or op
+            elif o.get("k") == "busy":
+                op = o["eff"]
             if crash:
                 t.add(f"crash.{op['op']['k']}.after{op['after']}." + ("killed" if o.get("killed") else "notReached"))
                 if o.get("killed"):
@@ -697,6 +911,20 @@ class ClusterSuite(Suite):
             k, res = op["k"], st["res"]
             r = res if isinstance(res, str) else ("err." + res["error"] if "error" in res else f"bool.{res['bool']}")
             t.add(f"{k}.{r}")
+            if o.get("parked_before") and not o.get("resumed"):
+                t.add(f"duringStall.{k}.{r}")
+            hh = op.get("h")
+            if hh in failed and not o.get("killed"):
+                for pair, writers in (("cfg", CFG_WRITERS), ("js", JS_WRITERS)):
+                    if k in writers and (o.get(pair + "_stale") or o.get(pair + "_behind")):
+                        t.add(f"afterFailure.out_of_date_{pair}_write.{k}.{r}")
+                    elif k in writers and "cfg_stale" in o and not o["marker_before"]:
+                        t.add(f"afterFailure.up_to_date_{pair}_write.{k}.{r}")
+            if k == "load" and isinstance(res, dict) and "bool" in res:
+                failed.discard(hh)
+            if isinstance(res, dict) and "error" in res and res["error"] != "lockTimeout" and k != "load" and hh is not None:
+                failed.add(hh)
+                t.add(f"failure.{k}.{res['error']}" + (".write" if o.get("write_failed") else ""))
             # operations executed while a version file is EMPTY
             for pair, flag, writers, behind in (("cfg", "cfg_torn", CFG_WRITERS, "cfg_behind"), ("js", "js_torn", JS_WRITERS, "js_behind")):
                 if o.get(flag):
@@ -734,7 +962,11 @@ class ClusterSuite(Suite):
         if len(ops) > 1:
             yield dict(case, ops=ops[: len(ops) // 2])
         for i, op in enumerate(ops):
-            if op["k"] == "crash" and op["op"]["k"] == "update":
+            if op["k"] in ("failWrite", "stallBegin"):
+                yield dict(case, ops=ops[:i] + [op["op"]] + ops[i + 1:])
+            if op["k"] in WRAPS and op["after"] > 0:
+                yield dict(case, ops=ops[:i] + [dict(op, after=op["after"] - 1)] + ops[i + 1:])
+            if op["k"] in WRAPS and op["op"]["k"] == "update":
                 inner = op["op"]
                 for f in ("submitted", "blocked", "canceled", "completed", "hpcIds"):
                     if inner[f]:
